@@ -1,7 +1,6 @@
 #!/usr/bin/env python3
 """Regenerate Gen/SrcPolyhedron.lean from scad_tree/src/dim3.rs: Polyhedron::{into_scad, into_scad_with_convexity,
-translate, apply_matrix, rotate_x/y/z, linear_extrude, loft, cylinder} (see treesrc.py; rotate_extrude and sweep
-stay hand-modelled)."""
+translate, apply_matrix, rotate_x/y/z, linear_extrude, loft, cylinder, rotate_extrude, sweep} (see treesrc.py)."""
 import os, sys
 sys.path.insert(0, os.path.dirname(os.path.abspath(__file__)))
 import treesrc
